@@ -118,6 +118,30 @@ Verdict(r) ==
               ELSE IF ~SameExceptLock(fin, FinalExpected(r)) THEN Fail("memory-changed", 0)
               ELSE IF Props(bank).latch /\ fin[3] = 170 THEN Fail("left-latched", 0)
               ELSE Pass
+      [] r.seq = "write" /\ r.locs # <<>> ->
+           \* a value declared by the user of the library: its locations in the order given (they need not be contiguous or
+           \* ascending); access types are those the bank's map gives these locations
+           LET n == Len(r.wdata)
+               typ(j) == TypeOfLoc(r.unit.bank, r.locs[j])
+               writable == \A j \in 1..Len(r.locs) : Writable(typ(j))
+               lockable == \E j \in 1..Len(r.locs) : Lockable(typ(j))
+               mine == {r.locs[j] : j \in 1..n}
+               stored == /\ \A j \in 1..n : fin[r.locs[j] + 1] = r.wdata[j]
+                         /\ \A l \in 0..254 : (l # 2 /\ l \notin mine) => fin[l + 1] = r.unit.mem[l + 1]
+               \* a DTR0 that did not advance is harmless when the next location is set explicitly anyway: it must be
+               \* reported only if the data did not arrive (clause above); it may be reported (last step)
+               faulty == fr.badwrite \/ u0.nobble \/ fr.noadv
+           IN IF ~writable THEN
+                  (IF r.out.exc = "MemoryValueNotWriteable" /\ Len(r.ev) = 0 THEN Pass
+                   ELSE Fail("read-only-value-not-refused-before-sending", Len(r.ev)))
+              ELSE IF r.out.exc = "none" THEN
+                  (IF ~stored THEN Fail("failed-write-reported-as-success", 0)
+                   ELSE IF fr.badwrite /\ r.ignore # 1 THEN Fail("fault-not-reported", 0)
+                   ELSE IF lockable /\ fin[3] = 85 THEN Fail("left-unlocked", 0)
+                   ELSE Pass)
+              ELSE IF r.out.exc \notin DocumentedWriteExc THEN Fail("undocumented-exception:" \o r.out.exc, 0)
+              ELSE IF ~faulty /\ r.legal = 1 THEN Fail("spurious-failure:" \o r.out.exc, 0)
+              ELSE Pass
       [] r.seq = "write" ->
            LET row == Map[RowIx(r.unit.bank, r.value)]
                writable == \A l \in LocsOf(row) : Writable(TypeAt(row, l))
